@@ -359,22 +359,42 @@ def rule_recurrent_loop(ctx: Ctx, out: Collector) -> None:
                         ok_events.add(r.id)
             # a call of the loop's activation that (transitively) produces the node's default
             body_defaults = [ev for ev in g.events('call') if ctx.roles.body(ev) == 'default']
+            # the invocations of get_default below the loop's activation (whatever helpers lie in between)
             defaults = set()
+            for bd in body_defaults:
+                cur = bd.inst
+                while cur is not None and cur is not lp.inst:
+                    cur = cur.parent
+                if cur is lp.inst and bd.inst is not lp.inst:
+                    defaults.add(bd.id)
+            for ev in g.cut_calls:
+                # not expanded (depth bound): a node runner below the loop counts as producing the default itself
+                cur = ev.inst
+                while cur is not None and cur is not lp.inst:
+                    cur = cur.parent
+                if cur is lp.inst and ev.info.get('cut') is not None and _may_default(ctx, ev.info['cut']):
+                    defaults.add(ev.id)
+            # calls (at any depth below the loop) that lead to such an invocation: "the default was requested"
+            requests = set(defaults)
             for ev in g.events('call'):
                 callee = ev.info.get('callee')
-                if ev.inst is lp.inst and callee is not None:
-                    for bd in body_defaults:
-                        cur = bd.inst
-                        while cur is not None and cur is not callee:
-                            cur = cur.parent
-                        if cur is callee:
-                            defaults.add(ev.id)
+                if callee is None or callee.unit.fid not in ctx.task_roots():
+                    continue            # only a whole node execution (a task root run in place) stands for its default
+                for bd in body_defaults:
+                    if bd.id not in defaults:
+                        continue
+                    cur = bd.inst
+                    while cur is not None and cur is not callee:
+                        cur = cur.parent
+                    if cur is callee:
+                        requests.add(ev.id)
+                        break
             # paths to a default must be guarded by isinstance(.., Recurrent) and use_default
             s = Search(ctx.p, g, EXC_LABELS)
 
             def estep(prev, lab, e, state, facts):
                 rec, usedef = state
-                if prev is not None and prev.kind == 'branch' and lab == 'T' and prev.info.get('test') is not None and prev.inst is lp.inst:
+                if prev is not None and prev.kind == 'branch' and lab == 'T' and prev.info.get('test') is not None:
                     parts = []
                     decompose(prev.info['test'], True, parts)
                     for gx, pol in parts:
@@ -396,7 +416,7 @@ def rule_recurrent_loop(ctx: Ctx, out: Collector) -> None:
                 s2 = Search(ctx.p, g, NORMAL_LABELS)
 
                 def step2(e, st, f):
-                    if e.id in ok_events or e.id in defaults:
+                    if e.id in ok_events or e.id in requests:
                         return None
                     return 0
                 res2 = s2.run([(f, 0, frozenset()) for f in fsucc], step2, lambda e, st, f: e.id in ends)
@@ -413,6 +433,11 @@ def rule_recurrent_loop(ctx: Ctx, out: Collector) -> None:
                                                   f'none at all', path_text(g, path))
     if n == 0:
         raise AnalysisError('no bounded re-execution loop found (RC-1 anchor vanished)')
+
+
+def _may_default(ctx: Ctx, unit: FuncUnit) -> bool:
+    g = ctx.graph(unit.fid)
+    return any(ctx.roles.body(ev) == 'default' for ev in g.events('call'))
 
 
 def _runs_launch_loop(ctx: Ctx, g: Graph, call: Ev) -> bool:
